@@ -298,3 +298,128 @@ Proof.
       * cbn [next_blk set_int with_env]. lia.
   - cbn [exec] in H. inversion H; subst. exists blk. split; [exact BA|]. split; [apply same_except_refl|now left].
 Qed.
+
+Lemma eval_double st capv c v t :
+  ivar st capv c -> eval st (double_of capv) = Ok (v, t) -> v = VInt (c * 2).
+Proof.
+  intros Hc H. unfold double_of in H. rewrite eval_mul, (eval_ivar _ _ _ Hc), eval_lit in H.
+  cbn in H. unfold chk32 in H. destruct (in_int32 (c * 2)); cbn in H; congruence.
+Qed.
+
+Lemma eval_max_of st capv c m mz tm v t :
+  ivar st capv c -> eval st m = Ok (VInt mz, tm) -> eval st (max_of capv m) = Ok (v, t) -> v = VInt (Z.max (c * 2) mz).
+Proof.
+  intros Hc Em H. unfold max_of in H. rewrite eval_max, eval_mul, (eval_ivar _ _ _ Hc), eval_lit, Em in H.
+  cbn in H. unfold chk32 in H. destruct (in_int32 (c * 2)); cbn in H; [|discriminate]. inversion H; subst. f_equal.
+  destruct (c * 2 >? mz) eqn:G.
+  - apply Z.gtb_lt in G. rewrite Z.max_l; lia.
+  - rewrite Z.gtb_ltb in G. apply Z.ltb_ge in G. rewrite Z.max_r; lia.
+Qed.
+
+(** growth by doubling / by max, as emitted *)
+Lemma exec_grow_double n st m mz tm capv arrv ety blk B st' tr :
+  capv <> arrv -> buf_at st capv arrv ety blk B -> eval st m = Ok (VInt mz, tm) ->
+  exec (S (S (S n))) (grow_stmt m capv arrv ety (double_of capv)) st = Normal st' tr ->
+  exists blk', buf_at st' capv arrv ety blk' (grow_double B mz)
+               /\ same_except st st' [capv; arrv] [blk] /\ (blk' = blk \/ blk' = next_blk st).
+Proof.
+  intros Hne BA Em H. eapply exec_grow_core with (newc := b_cap B * 2) in H; eauto.
+  intros v t. apply eval_double. apply BA.
+Qed.
+
+Lemma exec_grow_max n st m mz tm capv arrv ety blk B st' tr :
+  capv <> arrv -> buf_at st capv arrv ety blk B -> eval st m = Ok (VInt mz, tm) ->
+  exec (S (S (S n))) (grow_stmt m capv arrv ety (max_of capv m)) st = Normal st' tr ->
+  exists blk', buf_at st' capv arrv ety blk' (grow_max B mz)
+               /\ same_except st st' [capv; arrv] [blk] /\ (blk' = blk \/ blk' = next_blk st).
+Proof.
+  intros Hne BA Em H. eapply exec_grow_core with (newc := Z.max (b_cap B * 2) mz) in H; eauto.
+  intros v t. eapply eval_max_of; eauto. apply BA.
+Qed.
+
+(** [a[idx] = val] on an integer array *)
+Lemma exec_store_int n st capv arrv blk B idx i ti val v tv st' tr :
+  buf_at st capv arrv TInteger blk B ->
+  eval st idx = Ok (VInt i, ti) -> is_alloc_form val = false -> eval st val = Ok (VInt v, tv) ->
+  exec (S n) (Assignment (ArrayIndex (Var arrv) idx) val) st = Normal st' tr ->
+  exists B', bstore B i v = Some B' /\ buf_at st' capv arrv TInteger blk B' /\ same_except st st' [] [blk].
+Proof.
+  intros (Hc & Hp & Hlt & bl & Hf & Hlive & Hin & Hfl & Hlen & Hcr & Harr) Ei Hal Ev H.
+  rewrite exec_assignment, eval_rhs_pure in H by auto. rewrite Ev in H. cbn [bind] in H.
+  cbn [eval_loc] in H. rewrite (eval_pvar _ _ _ _ Hp), Ei in H. cbn [bind assign] in H.
+  unfold IRSem.store in H. rewrite Hf, Hlive, Hin in H. cbn [negb] in H.
+  destruct ((0 + i <? 0) || (b_len bl <=? 0 + i)) eqn:OB; [discriminate|].
+  apply orb_false_iff in OB. destruct OB as [O1 O2]. apply Z.ltb_ge in O1. apply Z.leb_gt in O2.
+  rewrite Hfl in H. cbn [is_float_ty coerce] in H. destruct (in_int32 v) eqn:I32; cbn [bind] in H; [|discriminate].
+  inversion H; subst; clear H. replace (0 + i) with i in * by lia.
+  exists (mkBuf (b_cap B) (arr_of (mkBlock (b_float bl) (b_len bl) (PM.add (key i) (VInt v) (b_cells bl)) true false))).
+  split; [|split].
+  - unfold bstore. rewrite Harr, arr_of_store by lia. reflexivity.
+  - split; [exact Hc|]. split; [exact Hp|]. split; [exact Hlt|].
+    eexists. split; [unfold with_heap; cbn [heap]; apply PM.gss|]. cbn [b_live b_input b_float b_len b_arr].
+    rewrite Hfl. repeat split; auto. apply cells_in_range_add; auto. lia.
+  - repeat split; auto.
+    + intros b Nb _. unfold with_heap; cbn [heap]. rewrite PM.gso; auto. intros ->. apply Nb. now left.
+    + unfold with_heap; cbn [next_blk]. lia.
+Qed.
+
+(** one compressed output level: its two growable arrays (on different blocks) and its cursor *)
+Definition level_at (st : state) (N : lnames) (pb cb : positive) (L : lstate) : Prop :=
+  buf_at st (n_poscap N) (n_pos N) TInteger pb (s_pos L)
+  /\ buf_at st (n_crdcap N) (n_crd N) TInteger cb (s_crd L)
+  /\ pb <> cb /\ ivar st (n_ptr N) (s_cur L).
+
+Definition names_distinct (N : lnames) (others : list string) : Prop :=
+  NoDup ([n_pos N; n_poscap N; n_crd N; n_crdcap N; n_ptr N] ++ others).
+
+Ltac nd_neq H :=
+  let X := fresh in intros X; revert H; unfold names_distinct; cbn [app]; rewrite X;
+  repeat (let K := fresh in intros K; inversion K; subst; clear K; cbn [In] in *; try tauto).
+
+(** write_crd_assembly: [if (p >= crd_capacity) { double }  crd[p] = i] is [Append.crd_assembly] *)
+Theorem crd_assembly_refines n st N ix c pb cb L st' tr :
+  names_distinct N [ix] -> level_at st N pb cb L -> ivar st ix c ->
+  exec (S (S (S (S n)))) (crd_assembly_stmt N ix) st = Normal st' tr ->
+  exists L' cb', crd_assembly L c = Some L' /\ level_at st' N pb cb' L' /\ ivar st' ix c
+                 /\ same_except st st' [n_crdcap N; n_crd N] [cb] /\ (cb' = cb \/ cb' = next_blk st).
+Proof.
+  intros ND (BP & BC & Hpc & Hcur) Hix H.
+  assert (D1 : n_crdcap N <> n_crd N) by nd_neq ND.
+  assert (D2 : n_poscap N <> n_crdcap N) by nd_neq ND.
+  assert (D3 : n_poscap N <> n_crd N) by nd_neq ND.
+  assert (D4 : n_pos N <> n_crdcap N) by nd_neq ND.
+  assert (D5 : n_pos N <> n_crd N) by nd_neq ND.
+  assert (D6 : n_ptr N <> n_crdcap N) by nd_neq ND.
+  assert (D7 : n_ptr N <> n_crd N) by nd_neq ND.
+  assert (D8 : ix <> n_crdcap N) by nd_neq ND.
+  assert (D9 : ix <> n_crd N) by nd_neq ND.
+  unfold crd_assembly_stmt in H. rewrite exec_block in H.
+  apply run_block_cons_inv in H. destruct H as (st1 & t1 & E1 & H).
+  apply run_block_cons_inv in H. destruct H as (st2 & t2 & E2 & H). rewrite run_block_nil in H. inversion H; subst; clear H.
+  eapply exec_grow_double in E1; eauto using eval_ivar.
+  destruct E1 as (cb1 & BC1 & S1 & Hcb1).
+  assert (NI : forall x, x <> n_crdcap N -> x <> n_crd N -> ~ In x [n_crdcap N; n_crd N]).
+  { intros x A B [X|[X|[]]]; congruence. }
+  assert (Hcur1 : ivar st1 (n_ptr N) (s_cur L)) by (eapply ivar_frame; eauto).
+  assert (Hix1 : ivar st1 ix c) by (eapply ivar_frame; eauto).
+  assert (BP1 : buf_at st1 (n_poscap N) (n_pos N) TInteger pb (s_pos L)).
+  { eapply buf_at_frame; eauto. intros [X|[]]. congruence. }
+  unfold crd_store_stmt in E2.
+  eapply exec_store_int in E2; eauto using eval_ivar.
+  destruct E2 as (B' & ST & BC2 & S2).
+  assert (Hpb1 : (pb < next_blk st)%positive) by apply BP.
+  assert (Hcb1' : pb <> cb1) by (destruct Hcb1; subst; auto; lia).
+  exists (mkL (s_pos L) B' (s_cur L)), cb1. split; [|split; [|split; [|split]]].
+  - unfold crd_assembly. now rewrite ST.
+  - split; [|split; [|split]]; auto.
+    + eapply buf_at_frame; eauto. intros [X|[]]. congruence.
+    + eapply ivar_frame; eauto.
+  - eapply ivar_frame; eauto.
+  - eapply same_except_trans; eauto.
+    destruct S2 as (E & Hh & Nn). repeat split; auto.
+    intros b Nb Lb. destruct (Pos.eq_dec b cb1) as [->|Nc].
+    + exfalso. destruct Hcb1 as [->| ->]. { apply Nb. now left. }
+      destruct S1 as (_ & _ & Nx). destruct BC1 as (_ & _ & Lt & _). lia.
+    + apply Hh; auto. intros [X|[]]. congruence.
+  - exact Hcb1.
+Qed.
